@@ -17,9 +17,15 @@ rt/<route>/increasing       diagonal orientation differs from the documented one
 rt/<route>/positions        the route yields a wrong set of positions (missing / extra / repeated)
                             {coordsys, route, depth, bottom_only, [filter], missing, extra, repeated}
 rt/<route>/raises           the route raised on a valid position                     {.., error}
-    <route> in generate_tiles | generate_tiles_filtered | create_single_tile | toast_tile_for_point
+    <route> in generate_tiles | generate_tiles_filtered | create_single_tile | toast_tile_for_point |
+               Pyramid.visit_leaves (the (pos, tile) pairs handed to the callback of a serial leaf visit of
+               Pyramid.new_toast / new_toast_filtered / .subpyramid(apex); witnesses add
+               {pyramid, depth, filter, apex}; positions also lists ``mislabelled`` leaves delivered
+               without a tile or with the tile of another position)
 rt/routes/agree             two routes give different (corners, increasing) for one position
                             {coordsys, n, x, y, route, other_route, dist, increasing, other_increasing}
+                            for route = Pyramid.visit_leaves the witness adds {pyramid, depth, filter, apex} and
+                            other_route is generate_tiles (create_single_tile beyond the enumerated levels);
                             point look-up as the route of obtaining tile (n, x, y) (look-up of a point
                             strictly inside the documented tile) adds {depth, lat, lon, weights, got}:
                             weights = null (tile centre) or the four positive corner weights of the
@@ -43,11 +49,13 @@ quick   : full enumeration (bottom_only False; True to depth 6) to depth 8, both
           (depth <= 6); 500 point look-ups (depth <= 14); point look-up as a construction route:
           every position of levels 1..5 at its centre and at one random interior point + 600
           random positions of depth 6..14, evenly over the four level-1 quadrants, compared with
-          the enumerated tile (create_single_tile beyond the enumerated levels)
+          the enumerated tile (create_single_tile beyond the enumerated levels); Pyramid visitors
+          (visit_leaves of new_toast to depth 4, 24 filtered / sub-pyramid / both cases of depth <= 4)
           [all numbers per coordinate system].
 thorough: enumeration to depth 9; areas to depth 8; single tiles exhaustively to depth 6 + 6000
           random positions to depth 24; 300 filtered enumerations (depth <= 8); 3000 look-ups;
-          look-up by position: levels 1..6 exhaustively + 4000 random positions to depth 14.
+          look-up by position: levels 1..6 exhaustively + 4000 random positions to depth 14;
+          Pyramid visitors to depth 6, 120 filtered / sub-pyramid cases.
 
 Tolerances: sky positions compared as unit vectors, chord <= 1e-12 (rounding of <= 24 chained
 midpoints is ~1e-15); areas |a - ref| <= 1e-9 * ref + 1e-13 (toast_tile_area carries a constant
@@ -466,6 +474,93 @@ def _filtered_case(ctx, rep, T, Pos, coordsys, depth, bottom_only, kind, params,
     return good
 
 
+def _in_subpyramid(key, apex):
+    """key lies in the sub-pyramid below (and including) apex."""
+    n, x, y = key
+    an, ax, ay = apex
+    return n >= an and (x >> (n - an), y >> (n - an)) == (ax, ay)
+
+
+def _pyramid_case(ctx, rep, T, Pos, coordsys, depth, kind, params, apex, ref_of=None):
+    """The tiles that the Pyramid visitors hand to their callbacks are one more way of obtaining 'the tile of a position'
+    (full enumeration / filtered enumeration behind ``Pyramid.new_toast`` / ``new_toast_filtered`` / ``subpyramid``):
+    every (pos, tile) delivered by ``visit_leaves`` must carry the documented corners / orientation of ``pos`` in the
+    pyramid's coordinate system, the same as the other routes report, and the leaves delivered are exactly the leaves that
+    pass the filter and lie below the apex.  kind: None (unfiltered) or one of _FILTER_KINDS; apex: None or [n, x, y].
+    Serial visit (parallel=1: no worker processes; which worker delivers a tile is property C03)."""
+    import contextlib
+    import io
+    from toasty.pyramid import Pyramid
+    cs = T.ToastCoordinateSystem(coordsys)
+    route = "Pyramid.visit_leaves"
+    how = ("new_toast" if kind is None else "new_toast_filtered") + (".subpyramid" if apex is not None else "")
+    fdesc = None if kind is None else {"kind": kind, "params": params}
+    w0 = {"coordsys": coordsys, "route": route, "pyramid": how, "depth": depth, "filter": fdesc, "apex": None if apex is None else list(apex)}
+    ok = (lambda n, x, y: True) if kind is None else _make_filter(kind, params, depth)
+    got = []
+    try:
+        if kind is None:
+            pyr = Pyramid.new_toast(depth, coordsys=cs)
+        else:
+            pyr = Pyramid.new_toast_filtered(depth, lambda tile: ok(tile.pos.n, tile.pos.x, tile.pos.y), coordsys=cs)
+        if apex is not None:
+            pyr = pyr.subpyramid(Pos(n=apex[0], x=apex[1], y=apex[2]))
+        with contextlib.redirect_stdout(io.StringIO()):
+            pyr.visit_leaves(lambda pos, tile: got.append((pos, tile)), parallel=1)
+    except Exception as e:
+        rep("rt/%s/raises" % route, dict(w0, n=depth, x=0, y=0, error=repr(e)), "Pyramid.%s(...).visit_leaves raised %r" % (how, e))
+        return False
+    exp = _expected_filtered(ok, depth, True)
+    if apex is not None:
+        exp = set(k for k in exp if _in_subpyramid(k, apex))
+    ctx.case((coordsys, route, how, depth, kind, repr(sorted((params or {}).items())), None if apex is None else tuple(apex)),
+             nontrivial=len(exp) > 0)
+    good = True
+    seen = {}
+    repeated, mislabelled = [], []
+    for pos, tile in got:
+        key = (int(pos.n), int(pos.x), int(pos.y))
+        if key in seen:
+            repeated.append(list(key))
+        if tile is None or (int(tile.pos.n), int(tile.pos.x), int(tile.pos.y)) != key:
+            mislabelled.append(list(key))
+            continue
+        seen[key] = tile
+    if set(seen) != exp or repeated or mislabelled:
+        missing = sorted(exp - set(seen))[:5]
+        extra = sorted(set(seen) - exp)[:5]
+        rep("rt/%s/positions" % route, dict(w0, bottom_only=True, missing=[list(m) for m in missing], extra=[list(m) for m in extra],
+                                            repeated=repeated[:5], mislabelled=mislabelled[:5]),
+            "Pyramid.%s(...).visit_leaves delivers a wrong set of leaves: missing %s extra %s repeated %s, delivered without / with "
+            "another position's tile %s" % (how, missing, extra, repeated[:5], mislabelled[:5]))
+        good = False
+    keys = sorted(seen)
+    extra_w = {k: w0[k] for k in ("pyramid", "depth", "filter", "apex")}
+    good &= _check_tiles_bulk(rep, coordsys, route, [seen[k] for k in keys], extra_w)
+    # direct agreement with the other routes (no oracle): the enumerated tile when available, create_single_tile otherwise
+    for key in keys:
+        t = seen[key]
+        ref = ref_of(*key) if ref_of is not None else None
+        other = "generate_tiles"
+        if ref is None:
+            other = "create_single_tile"
+            try:
+                t2 = T.create_single_tile(Pos(n=key[0], x=key[1], y=key[2]), coordsys=cs)
+                ref = (t2.corners, t2.increasing)
+            except Exception:
+                continue   # reported by the create_single_tile obligations
+        d = S.chord(_corner_vecs(t.corners), _corner_vecs(ref[0]))
+        dm = float(np.max(np.where(np.isnan(d), np.inf, d)))
+        if not dm <= TOL_POS or bool(t.increasing) != bool(ref[1]):
+            rep("rt/routes/agree", dict(w0, n=key[0], x=key[1], y=key[2], other_route=other, dist=dm, increasing=bool(t.increasing),
+                                        other_increasing=bool(ref[1])),
+                "tile (%d,%d,%d) of the %s system: the tile handed to the visit_leaves callback of Pyramid.%s differs from the one "
+                "reported by %s (corner distance %.3g, increasing %r vs %r)"
+                % (key[0], key[1], key[2], coordsys, how, other, dm, bool(t.increasing), bool(ref[1])))
+            good = False
+    return good
+
+
 def _lookup_case(ctx, rep, T, Pos, coordsys, depth, lat, lon):
     """The tile handed back by point look-up is the documented tile of the position it claims
     (whether that position contains the point is property C12)."""
@@ -604,6 +699,8 @@ def run(ctx):
     d_look = 14
     d_lookpos = 6 if thorough else 5
     n_lookpos = 4000 if thorough else 600
+    d_pyr = 6 if thorough else 4
+    n_pyr = 120 if thorough else 24
 
     ctx.bound("both coordinate systems; generate_tiles(depth, bottom_only=False) for depth = %d and bottom_only=True for "
               "depth <= %d: every yielded tile compared with the documented lattice (chord <= %g)" % (d_enum, min(d_enum, 6), TOL_POS))
@@ -621,6 +718,10 @@ def run(ctx):
               "random positions of depth %d..%d spread evenly over the four level-1 quadrants: the look-up must hand back "
               "that position with the corners / orientation the enumeration (create_single_tile beyond level %d) reports"
               % (d_lookpos, n_lookpos, d_lookpos + 1, d_look, d_enum))
+    ctx.bound("Pyramid visitors as construction routes (serial visit_leaves; the tile handed to the callback vs the documented lattice, "
+              "vs generate_tiles and the expected leaf set): Pyramid.new_toast(depth) for depth 1..%d; %d seeded cases of "
+              "new_toast_filtered (position-defined filters), new_toast(...).subpyramid(apex) for random apexes of every level <= depth "
+              "and new_toast_filtered(...).subpyramid(apex), depth <= %d [per coordinate system]" % (d_pyr, n_pyr, d_pyr))
     ctx.assume("rt/c04_sphere.py is a faithful model of the documented TOAST layout (octahedron, midpoint subdivision)")
     ctx.assume("numpy float64 arithmetic; positions compared as unit vectors with chord tolerance 1e-12")
 
@@ -711,6 +812,36 @@ def run(ctx):
                 q1 = [rng.randint(0, 1), rng.randint(0, 1)]
                 params = {"drop1": q1, "drop2": [rng.randint(0, 3), rng.randint(0, 3)]}
             _filtered_case(ctx, rep, T, Pos, coordsys, depth, bottom_only, kind, params)
+        # ---- the Pyramid visitors (full / filtered enumeration behind Pyramid.new_toast / new_toast_filtered / subpyramid)
+        def ref_enum(n, x, y):
+            if arr is not None and n in arr and arr[n][2][x, y] > 0:
+                return (arr[n][0][x, y], arr[n][1][x, y])
+            return None
+
+        for depth in range(1, d_pyr + 1):
+            _pyramid_case(ctx, rep, T, Pos, coordsys, depth, None, None, None, ref_enum)
+        for i in range(n_pyr):
+            depth = rng.randint(1, d_pyr)
+            form = i % 3                      # 0: filtered, 1: sub-pyramid of an unfiltered pyramid, 2: both
+            kind, params, apex = None, None, None
+            if form != 1:
+                kind = _FILTER_KINDS[(i // 3) % 3]
+                if kind == "paths":
+                    params = {"targets": [[rng.randrange(1 << depth), rng.randrange(1 << depth)] for _ in range(rng.randint(1, 6))]}
+                elif kind == "random":
+                    params = {"salt": rng.randrange(10 ** 6), "pct": rng.choice([60, 85, 100])}
+                else:
+                    params = {"drop1": [rng.randint(0, 1), rng.randint(0, 1)], "drop2": [rng.randint(0, 3), rng.randint(0, 3)]}
+            if form != 0:
+                an = rng.randint(0, depth) if i % 2 else rng.randint(1, min(2, depth))
+                apex = [an, rng.randrange(1 << an), rng.randrange(1 << an)]
+                if kind == "paths":          # an apex on one of the accepted paths, so that the sub-pyramid is not empty
+                    tx, ty = params["targets"][0]
+                    apex = [an, tx >> (depth - an), ty >> (depth - an)]
+            _pyramid_case(ctx, rep, T, Pos, coordsys, depth, kind, params, apex, ref_enum)
+            if i == 0:
+                ctx.sample({"coordsys": coordsys, "route": "Pyramid.visit_leaves", "pyramid": "new_toast_filtered", "depth": depth,
+                            "filter": {"kind": kind, "params": params}})
         # ---- point look-up route
         specials = [(math.pi / 2, 0.3), (-math.pi / 2, 4.0), (0.0, 0.0), (0.0, math.pi / 2), (0.0, math.pi), (0.0, 1.5 * math.pi),
                     (0.4, 0.0), (-0.4, 2 * math.pi), (0.7, math.pi), (math.pi / 4, math.pi / 4)]
@@ -795,6 +926,9 @@ def replay(obligation, witness):
                     _shared_corners(rep, coordsys, lev, vecs[lev])
                     if lev - 1 in vecs:
                         _nesting(rep, coordsys, lev - 1, vecs[lev - 1], arr[lev - 1][1], vecs[lev])
+    elif route == "Pyramid.visit_leaves":
+        f = w.get("filter")
+        _pyramid_case(c, rep, T, Pos, coordsys, int(w["depth"]), f["kind"] if f else None, f["params"] if f else None, w.get("apex"))
     elif len(parts) == 3 and parts[1] == "generate_tiles_filtered":
         f = w["filter"]
         _filtered_case(c, rep, T, Pos, coordsys, int(w["depth"]), bool(w["bottom_only"]), f["kind"], f["params"], check_single=10 ** 6)
